@@ -224,7 +224,7 @@ def merge(results: list[dict]) -> dict:
 
 
 def write_replay(prop: str, failure: dict) -> str:
-	d = os.path.join(env.VERIF_DIR, 'replays', prop)
+	d = os.path.join(os.environ.get('VERIF_REPLAY_DIR') or os.path.join(env.VERIF_DIR, 'replays'), prop)
 	os.makedirs(d, exist_ok=True)
 	name = digest([failure['sig'], failure['case']]) + '.json'
 	path = os.path.join(d, name)
@@ -267,7 +267,7 @@ def write_evidence(mod, tier: str, seed: int, merged: dict, wall: float, violati
 		],
 		'wall_s': round(wall, 2), 'violations': violations,
 	}
-	d = os.path.join(env.VERIF_DIR, 'evidence')
+	d = os.environ.get('VERIF_EVIDENCE_DIR') or os.path.join(env.VERIF_DIR, 'evidence')
 	os.makedirs(d, exist_ok=True)
 	path = os.path.join(d, f'{mod.PROPERTY}.json')
 	with open(path, 'w') as f:
